@@ -897,6 +897,33 @@ fn run_ctor(kind: &str, args: &str) -> String {
             let a2: v2::Addresses = (s, d).into();
             format!("V1={} V2={}", v1_addr(&a1), v2_addr(&a2))
         }
+        "pairrt" => {
+            // the converted pair carried end to end: Display -> parse (v1), Builder -> parse (v2)
+            let s = sock(&mut it);
+            let d = sock(&mut it);
+            let a1: v1::Addresses = (s, d).into();
+            let a2: v2::Addresses = (s, d).into();
+            let line = a1.to_string();
+            let r1 = match v1::Header::try_from(line.as_str()) {
+                Ok(h) => v1_addr(&h.addresses),
+                Err(_) => "ERR".to_string(),
+            };
+            let ra = match line.parse::<v1::Addresses>() {
+                Ok(a) => v1_addr(&a),
+                Err(_) => "ERR".to_string(),
+            };
+            let (w, r2) = match v2::Builder::with_addresses(v2::Version::Two | v2::Command::Proxy, v2::Protocol::Stream, a2).build() {
+                Ok(out) => {
+                    let r2 = match v2::Header::try_from(out.as_slice()) {
+                        Ok(h) => v2_addr(&h.addresses),
+                        Err(_) => "ERR".to_string(),
+                    };
+                    (hexs(&out), r2)
+                }
+                Err(_) => ("ERR".to_string(), "ERR".to_string()),
+            };
+            format!("L={} R1={} RA={} W={} R2={}", hexs(line.as_bytes()), r1, ra, w, r2)
+        }
         "hdr1" => {
             // Header::new(text, addresses): keeps both as given
             let text = String::from_utf8(bytes_expr(it.next().unwrap())).unwrap();
